@@ -7,7 +7,7 @@ for id in "$@"; do
     [ -f "$p" ] || continue
     if ! git -C /repo apply --check "$p" 2>/dev/null; then echo "== $id mutant $k: PATCH DOES NOT APPLY"; continue; fi
     git -C /repo apply "$p"
-    out=$(cd /verif && timeout 1800 ./check $id 2>&1 | tail -2 | cut -c1-220)
+    out=$(cd /verif && VERIF_EVIDENCE_DIR=/verif/build/evidence_mutants timeout 1800 ./check $id 2>&1 | tail -2 | cut -c1-220)
     git -C /repo checkout -- . ; git -C /repo clean -fdq
     echo "== $id mutant $k: $out"
   done
